@@ -256,7 +256,40 @@ def run(ctx, res):
     # ---- heap discipline ----------------------------------------------------------------------
     from . import heaprule
     heaprule.check(ctx, res, "C05.R5")
+    heap_ready(ctx, res, "C05.R7")
 
     # ---- dispatch wiring --------------------------------------------------------------------------
     from . import dispatch
     dispatch.check(ctx, res, "C05.R6")
+
+
+def heap_ready(ctx, res, rule):
+    """Every iterator the merger hands out starts with a heap in heap order: on each path of the four installed entry points
+    (internal functions in line) that returns an iterator, an entry put on the heap without sifting (heap_add) is followed,
+    before the return, by heap_heapify; heap_push sifts by itself (the heap's own algorithms: rules/heaprule.py).  The first
+    next() takes the top of the heap for the smallest head - with the heads merely in source order it is not."""
+    prog, cg = ctx.prog, ctx.cg
+    res.floor(rule, 4)
+    for i_ in range(4):
+        cands = [n_ for n_ in cg.param_funcs.get(("mtbl_source_init", i_), ()) if prog.func(n_, U) is not None and prog.func(n_, U).file.endswith("merger.c")]
+        if len(cands) != 1:
+            raise BrokenAnalysis("merger source slot %d: expected one merger function, found %s" % (i_, sorted(cands)))
+        f = prog.func(cands[0], U)
+        res.saw(f)
+        bad = None
+        n = 0
+        for p in APE.run(prog, cg, f, bound=APE.BOUND, inline=("*static",), max_paths=40000).paths:
+            if p.end != "exit" or p.ret() is None or p.ret() == ("c", 0):
+                continue
+            n += 1
+            evs = [e for e in p.events if e.kind == "call"]
+            adds = [i for i, e in enumerate(evs) if e.a == "heap_add"]
+            hfy = [i for i, e in enumerate(evs) if e.a == "heap_heapify"]
+            if adds and (not hfy or hfy[-1] < adds[-1]):
+                bad = p
+                break
+        if n == 0:
+            raise BrokenAnalysis("%s: no path that returns an iterator" % f.name)
+        res.check(bad is None, rule, site(f, "heap-in-order-at-return"), "entries are pushed (sifted) or the heap is heapified before the iterator is returned",
+                  "%s returns an iterator whose heap was filled with heap_add and not heapified afterwards: the first next() does not start with the smallest key" % f.name,
+                  f.loc(f.body), bad.describe(f) if bad else None)
